@@ -104,6 +104,7 @@ mk_global  xor_gen_avx, function
 func(xor_gen_avx)
 
 	FUNC_SAVE
+	movsxd	vec, DWORD(vec)	;vects is a signed int
 	sub	vec, 2			;Keep as offset to last source
 	jng	return_fail		;Must have at least 2 sources
 	cmp	len, 0
